@@ -3,7 +3,7 @@ real asyncio TCPServer (virtual loop) or the real trio TCPServer (MockClock); bo
 observation of the same shape.
 
 actions: ("feed", bytes) | ("sleep", seconds) | ("eof",) | ("reset",) | ("write_fail_at", n)
-         | ("pause",) | ("resume",) | ("terminate",) | ("call", fn(env))
+         | ("pause",) | ("resume",) | ("pause_at_write", n) | ("terminate",) | ("call", fn(env))
 """
 from __future__ import annotations
 
@@ -55,6 +55,8 @@ def run_asyncio_session(app_factory: Callable, config: Optional[Config], actions
             s.reset()
         elif kind == "write_fail_at":
             s.tr.write_fail_at = act[1]
+        elif kind == "pause_at_write":
+            s.tr.pause_at = act[1]
         elif kind == "pause":
             s.tr.peer_stops_reading()
             s.loop.settle()
